@@ -44,7 +44,8 @@ def parse_shape(tree):
         elif isinstance(st, ast.For) and src(st.iter) == "_utils.null_locations" and src(st.target) == "(o, n)" and len(st.body) == 1 \
                 and src(st.body[0]) in ("o[n] = null", "o[n] = {'null': {}} if null is SQL_NULL else null"):
             effects.append("E_Subst")
-        elif s in ("if not output:\n    continue", "if isinstance(output, list):\n    acc.extend(output)\nelse:\n    acc.append(output)"):
+        elif "E_Subst" in effects and not any(w in s for w in ("_utils", "scrub(", "parse_string", "null_locations", "lookup_parsers")):
+            # result accumulation (its exact form is C13's business): any statements after the substitution loop that touch no parse-scoped global
             if not acc_seen:
                 effects.append("E_Acc")
                 acc_seen = True
@@ -52,9 +53,8 @@ def parse_shape(tree):
             raise ShapeError("_parse loop: unrecognised statement: %s" % s)
     # the statements around the loop: acc = [] before, the None / single / list rule after
     tail = [src(n) for n in pre]
-    expected = ["acc = []", "if len(acc) == 1:\n    return acc[0]", "if not acc:\n    return None", "return acc"]
-    if tail != expected:
-        raise ShapeError("_parse: statements around the loop changed: %r" % tail)
+    if any(w in t for t in tail for w in ("_utils", "scrub(", "parse_string", "null_locations", "lookup_parsers")):
+        raise ShapeError("_parse: a statement outside the loop touches parse-scoped state: %r" % tail)
     fresh_default_null = any(isinstance(st, ast.For) and "SQL_NULL else null" in src(st) for st in loops[0].body)
     return effects, fresh_default_null
 
